@@ -286,6 +286,23 @@ class C20:
                   "the request no longer syncs parent folders before marking and syncing the requested entry")
 
 
+    def s7(self):
+        """The on-demand entry points are application-thread roots: their state mutations happen under the state lock (C15.R1 restricted to them)."""
+        rep, ctx = self.rep, self.ctx
+        rep.rule("C20.S7", "request / un-request / delete entry points of SmartCloudSync mutate sync state only while holding the state lock, so the "
+                 "local delete of an un-request and its book-keeping are atomic with respect to event intake and sync steps (C15.R1 on these roots)", expect_min=5)
+        from rules.C15 import C15
+        c15 = C15(ctx, rep)
+        for name in ("smart_sync_oid", "smart_sync_path", "smart_unsync_oid", "smart_unsync_path", "smart_delete_path"):
+            f = self.cs.methods.get(name)
+            if f is None:
+                raise AnalysisError("SmartCloudSync.%s vanished" % name)
+            viol, nstates, nsites = c15.ls.unlocked_from(f)
+            rep.check("C20.S7", name, f, not viol, "%d mutation sites reached, all under the lock" % nsites,
+                      "%s reaches %d mutation(s) of sync state without the state lock (first: %s): an event or sync step can interleave between the local "
+                      "delete and its book-keeping" % (name, len(viol), viol[0][2] if viol else ""), witness=viol[0][3] if viol else None)
+
+
 def run(ctx: Ctx, rep: Report, tier: str):
     c = C20(ctx, rep)
     c.s1()
@@ -293,3 +310,4 @@ def run(ctx: Ctx, rep: Report, tier: str):
     c.s3()
     c.s4()
     c.s5_s6()
+    c.s7()
